@@ -37,6 +37,7 @@ import (
 	"github.com/dgraph-io/badger/v3"
 	ethcommon "github.com/ethereum/go-ethereum/common"
 	"github.com/ethereum/go-ethereum/crypto"
+	"github.com/libp2p/go-libp2p/core/peer"
 	"go.uber.org/zap"
 	"google.golang.org/protobuf/proto"
 
@@ -557,7 +558,29 @@ func (w *world) stateDump() string {
 	return sb.String()
 }
 
+// hbDump reads the guardian-set state the processor shares with the gossip side. The read goes
+// through the state's own lock: if somebody never released it, the read parks and that is reported
+// (the processor's next set update would park in the same way).
 func (w *world) hbDump() string {
+	if w.stalled {
+		return "hb=? (stalled)"
+	}
+	var out string
+	done := false
+	go func() {
+		out = w.hbDumpLocked()
+		done = true
+	}()
+	synctest.Wait()
+	if !done {
+		w.dead, w.stalled = true, true
+		w.violate("C13", "guardian-set-state-locked-forever", "after step %s the guardian-set state can no longer be read: its lock is held by nobody who will release it, the next guardian-set update blocks the processor for good", w.curStep)
+		return "hb=? (locked)"
+	}
+	return out
+}
+
+func (w *world) hbDumpLocked() string {
 	all := w.p.gst.GetAll()
 	n := 0
 	for _, m := range all {
@@ -757,7 +780,7 @@ func (w *world) runStep(i int, st simkit.Step) {
 			w.guard(func() { w.setC <- gs })
 		} else {
 			w.p.gs = gs
-			w.p.gst.Set(gs)
+			w.guard(func() { w.p.gst.Set(gs) })
 		}
 	case "msg":
 		d := decodeMsg(st.A)
@@ -848,6 +871,19 @@ func (w *world) runStep(i int, st simkit.Step) {
 			setStoreInner(w.db, bdb)
 			w.dbDown = false
 		}
+	case "hb":
+		// the gossip side stores a verified heartbeat in the guardian-set state it shares with the
+		// processor (A: guardian key, B: peer). More than the per-guardian cap of peers is refused.
+		if w.p == nil || w.dead || raceBuild {
+			// (the race-detector build keeps the real mutex, on which a blocked goroutine would hang the
+			// bubble instead of being seen as stalled)
+			break
+		}
+		addr, pid := simAddrs[int(st.A)%nKeys], peer.ID(fmt.Sprintf("peer-%d", st.B))
+		w.guard(func() {
+			_ = w.p.gst.SetHeartbeat(addr, pid, &gossipv1.Heartbeat{NodeName: "n", Counter: st.B, GuardianAddr: addr.Hex()})
+		})
+		w.stats.Fault("heartbeat-stored")
 	case "rerun":
 		// the supervisor cancels the processor's runnable and schedules it again: Run is entered a
 		// second time on the same Processor (loop mode; the handlers have no such notion)
